@@ -19,6 +19,27 @@
  *              two classes need (0..2 bytes for the exponent, 0..7 for the
  *              mantissa); the all-zero element is +1.0
  *
+ * added later (selector values that used to be duplicates, so that older case
+ * files keep their meaning):
+ *   narrow elements: mantissa class 6 (7 raw bytes = 56 bits): the top nibble,
+ *              formerly ignored, != 0 selects "exactly representable with a
+ *              k-bit significand" (k = KTAB[nibble]: 3,4,5,8,9,10,11,12,21,..,
+ *              25,32,52; leading one included, rest of the fraction zero); bit
+ *              0 of the raw value forces the lowest kept bit to 1.  In bulk
+ *              expansions only when (len byte >> 6) & 1 (resp. the quotient of
+ *              the 16-bit length) says so.
+ *   narrow arrays: shape byte & 7 == 7 (formerly a second "explicit"): bits
+ *              3-6 = k index, bit 7 = all-but-one; then m:1 (bits 0-1 exponent
+ *              window keep / half range / float range / around one, bits 2-3
+ *              lowest-kept-bit policy: half of the elements / all / as drawn /
+ *              exactly one), then an ordinary shape byte + array; afterwards
+ *              every normal element (but one) is cut to k significant bits.
+ *   requests:  near-class index 7 (formerly = index 0) and log-uniform k byte
+ *              128..191 (formerly = k % 64): requested error placed relative
+ *              to 2^-k, k = widest significand of the decoded array (or an
+ *              explicit table entry); falls back to the old meaning when the
+ *              array is not narrow.
+ *
  * oracle (DESIGN section 3, C07): decoder's byte count == encoder's; FULL:
  * every 8-byte pattern identical; lossy: specials (zero, subnormal, inf, NaN)
  * identical, normals |d-x| <= 2^-m |x| evaluated exactly in x87 long double,
@@ -85,6 +106,35 @@ static inline int rounds_above_max(uint64_t u, unsigned m) {
 static inline int is_tie(uint64_t u, unsigned m) {
     unsigned shift = 53 - m;
     return (frac_of(u) & ((1ULL << shift) - 1)) == (1ULL << (shift - 1));
+}
+
+/* significand widths (leading one included) of the "narrow format" classes:
+ * around LOW (4), bfloat16 (8), around MEDIUM (10) / binary16 (11), around
+ * HIGH (23) / binary32 (24), 32, 52.  Index 0 is the default of the per-array
+ * shape (binary32) and "not narrow" for the per-element class. */
+static const unsigned KTAB[16] = {24, 3,  4,  5,  8,  9,  10, 11,
+                                  12, 21, 22, 23, 24, 25, 32, 52};
+static int in_ktab(unsigned k) {
+    for (unsigned i = 1; i < 16; i++) {
+        if (KTAB[i] == k) {
+            return 1;
+        }
+    }
+    return 0;
+}
+/* number of significand bits a normal value needs (1..53) */
+static inline unsigned sigbits(uint64_t u) {
+    uint64_t f = frac_of(u);
+    return f ? 53u - (unsigned)__builtin_ctzll(f) : 1u;
+}
+/* fraction cut to a k-bit significand (k = 3..52), lowest kept bit forced */
+static inline uint64_t narrow(uint64_t f, unsigned k, int odd) {
+    unsigned drop = 53 - k;
+    f &= FRAC_MASK & ~((1ULL << drop) - 1);
+    if (odd) {
+        f |= 1ULL << drop;
+    }
+    return f;
 }
 
 /* |d - x| <= b * |x| ?  d - x is exact in the 64-bit significand whenever the
@@ -155,6 +205,10 @@ static unsigned take_exp(vf_rd *r, unsigned ec) {
     }
 }
 
+static int g_elem_narrow = 1; /* narrow-format element class enabled */
+static unsigned g_kseen;      /* KTAB indices drawn by that class (per case) */
+static int g_in_bulk, g_kseen_bulk; /* ... inside a bulk expansion */
+
 static uint64_t take_mant(vf_rd *r, unsigned mc) {
     switch (mc & 7) {
     case 0:
@@ -206,6 +260,15 @@ static uint64_t take_mant(vf_rd *r, unsigned mc) {
         for (int i = 0; i < 7; i++) {
             v |= (uint64_t)vf_u8(r) << (8 * i);
         }
+        unsigned nib = (unsigned)(v >> 52) & 15;
+        if (nib && g_elem_narrow) {
+            if (g_in_bulk) {
+                g_kseen_bulk = 1;
+            } else {
+                g_kseen |= 1u << nib;
+            }
+            return narrow(v, KTAB[nib], (int)(v & 1));
+        }
         return v & FRAC_MASK;
     }
     default:
@@ -228,13 +291,19 @@ static uint64_t take_elem(vf_rd *r, unsigned gate) {
 
 /* element from the pseudo-random stream (bulk shapes) */
 static unsigned g_gate; /* set per case by take_doubles */
+static int g_bulk_narrow; /* narrow-format elements inside bulk expansions */
 static uint64_t xs_elem(uint64_t *s) {
     uint8_t buf[16];
     uint64_t a = vf_xs(s), b = vf_xs(s);
     memcpy(buf, &a, 8);
     memcpy(buf + 8, &b, 8);
     vf_rd r = {buf, sizeof(buf), 0};
-    return take_elem(&r, g_gate);
+    g_elem_narrow = g_bulk_narrow;
+    g_in_bulk = 1;
+    uint64_t u = take_elem(&r, g_gate);
+    g_in_bulk = 0;
+    g_elem_narrow = 1;
+    return u;
 }
 
 static uint64_t xs_special(uint64_t *s) {
@@ -251,43 +320,7 @@ static uint64_t xs_special(uint64_t *s) {
 static const double REQ_T[7] = {0x1p-52, 1e-10, 0x1p-23, 5e-4,
                                 0x1p-10, 0.03,  0x1p-4};
 
-static double take_req(vf_rd *r, int *near_idx) {
-    unsigned a = vf_u8(r);
-    double q;
-    *near_idx = -1;
-    if ((a & 3) == 0) {
-        unsigned idx = ((a >> 2) & 7) % 7;
-        unsigned var = (a >> 5) & 7;
-        double t = REQ_T[idx];
-        *near_idx = (int)idx;
-        switch (var) {
-        case 1:
-            q = nextafter(t, 0.0);
-            break;
-        case 2:
-            q = nextafter(t, 1.0);
-            break;
-        case 3:
-            q = nextafter(nextafter(t, 0.0), 0.0);
-            break;
-        case 4:
-            q = nextafter(nextafter(t, 1.0), 1.0);
-            break;
-        case 5:
-            q = t * (1.0 - ldexp(1.0, -(int)(1 + vf_u8(r) % 50u)));
-            break;
-        case 6:
-            q = t * (1.0 + ldexp(1.0, -(int)(1 + vf_u8(r) % 50u)));
-            break;
-        default:
-            q = t;
-            break;
-        }
-    } else {
-        unsigned k = vf_u8(r) % 64u;
-        unsigned f = vf_u16(r);
-        q = ldexp(1.0 + (double)f / 65536.0, -(int)(k + 1));
-    }
+static double clamp_req(double q) {
     if (!(q > 0.0)) {
         q = DBL_MIN;
     }
@@ -295,6 +328,87 @@ static double take_req(vf_rd *r, int *near_idx) {
         q = nextafter(1.0, 0.0);
     }
     return q;
+}
+
+/* t itself, its neighbours, or t * (1 -+ 2^-j) */
+static double req_variant(double t, unsigned var, unsigned j) {
+    switch (var) {
+    case 1:
+        return nextafter(t, 0.0);
+    case 2:
+        return nextafter(t, 1.0);
+    case 3:
+        return nextafter(nextafter(t, 0.0), 0.0);
+    case 4:
+        return nextafter(nextafter(t, 1.0), 1.0);
+    case 5:
+        return t * (1.0 - ldexp(1.0, -(int)(1 + j % 50u)));
+    case 6:
+        return t * (1.0 + ldexp(1.0, -(int)(1 + j % 50u)));
+    default:
+        return t;
+    }
+}
+
+/* a requested error is either fixed by its own bytes or, for the two
+ * array-relative classes, placed once the array has been decoded */
+typedef struct reqspec {
+    double q;      /* resolved request */
+    int near_idx;  /* index into REQ_T or -1 */
+    int rel;       /* 0 fixed, 1 next to 2^-(k+off), 2 log-uniform around it */
+    int off;       /* exponent offset */
+    unsigned kfix; /* explicit k for rel == 1 (0: the array's) */
+    unsigned var, j, f, kb;
+} reqspec;
+
+static void take_req(vf_rd *r, reqspec *rq) {
+    unsigned a = vf_u8(r);
+    memset(rq, 0, sizeof(*rq));
+    rq->near_idx = -1;
+    if ((a & 3) == 0) {
+        unsigned raw = (a >> 2) & 7;
+        unsigned var = (a >> 5) & 7;
+        if (raw == 7) {
+            static const int offs[4] = {0, -1, 1, 2};
+            unsigned b = vf_u8(r);
+            rq->rel = 1;
+            rq->off = offs[b & 3];
+            rq->kfix = ((b >> 2) & 15) ? KTAB[(b >> 2) & 15] : 0;
+            rq->var = var;
+            rq->j = (var == 5 || var == 6) ? vf_u8(r) : 0;
+            return;
+        }
+        rq->near_idx = (int)raw;
+        rq->q = clamp_req(req_variant(
+            REQ_T[raw], var, (var == 5 || var == 6) ? vf_u8(r) : 0));
+    } else {
+        unsigned kb = vf_u8(r);
+        unsigned f = vf_u16(r);
+        rq->kb = kb;
+        rq->f = f;
+        if ((kb >> 6) == 2) {
+            rq->rel = 2;
+            rq->off = (int)((kb & 63) % 4u) - 2;
+            return;
+        }
+        rq->q = clamp_req(ldexp(1.0 + (double)f / 65536.0, -(int)(kb % 64u + 1)));
+    }
+}
+
+/* karr: widest significand among the normal elements, 0 if there is none or
+ * the array is not narrow (53 bits) */
+static void resolve_req(reqspec *rq, unsigned karr) {
+    if (rq->rel == 1) {
+        unsigned k = rq->kfix ? rq->kfix : karr ? karr : 24;
+        int e = (int)k + rq->off;
+        rq->q = clamp_req(req_variant(ldexp(1.0, -e), rq->var, rq->j));
+    } else if (rq->rel == 2) {
+        int e = karr ? (int)karr + rq->off : (int)(rq->kb % 64u);
+        if (!karr) {
+            rq->rel = 0; /* old meaning of these bytes */
+        }
+        rq->q = clamp_req(ldexp(1.0 + (double)rq->f / 65536.0, -(e + 1)));
+    }
 }
 
 enum {
@@ -313,8 +427,105 @@ static size_t max_n(void) {
     return vf_tier() == 1 ? 8000 : 2000;
 }
 
+/* per-array "narrow format" modifier (shape byte & 7 == 7) */
+typedef struct narrow_mod {
+    int on;
+    unsigned k;    /* significand bits kept */
+    int but1;      /* one normal element stays a full double */
+    unsigned win;  /* exponent window: keep / binary16 / binary32 / around 1 */
+    unsigned odd;  /* lowest kept bit: half / all / as drawn / exactly one */
+    unsigned salt;
+} narrow_mod;
+static narrow_mod g_mod;
+static const char *const WINN[4] = {"keep", "half", "float", "one"};
+static const char *const ODDN[4] = {"half", "all", "drawn", "one"};
+
+static void apply_narrow(uint64_t *v, size_t n, const narrow_mod *m) {
+    size_t normals = 0;
+    for (size_t i = 0; i < n; i++) {
+        normals += !is_special_bits(v[i]);
+    }
+    if (!normals) {
+        return;
+    }
+    uint64_t h = vf_mix(vf_mix(vf_mix(0xA770, m->salt), n), v[0]);
+    size_t ex = (m->but1 && normals >= 2) ? (size_t)(h % normals) : (size_t)-1;
+    size_t one = (size_t)((h >> 32) % normals);
+    if (one == ex) {
+        one = (one + 1) % normals;
+    }
+    size_t q = 0; /* running index among the normal elements */
+    for (size_t i = 0; i < n; i++) {
+        uint64_t u = v[i];
+        if (is_special_bits(u)) {
+            continue;
+        }
+        unsigned e = expf_of(u);
+        uint64_t f = frac_of(u);
+        switch (m->win) {
+        case 1:
+            e = 1009 + e % 30u; /* binary16 normal range */
+            break;
+        case 2:
+            e = 897 + e % 254u; /* binary32 normal range */
+            break;
+        case 3:
+            e = 1022 + e % 4u;
+            break;
+        default:
+            break;
+        }
+        if (q == ex) {
+            f |= 1; /* needs all 53 bits */
+        } else {
+            int odd;
+            switch (m->odd) {
+            case 0:
+                odd = (int)(vf_mix(h, i) & 1);
+                break;
+            case 1:
+                odd = 1;
+                break;
+            case 2:
+                odd = 0;
+                break;
+            default:
+                odd = q == one;
+                break;
+            }
+            f = narrow(f, m->k, odd);
+        }
+        v[i] = mk((unsigned)(u >> 63), e, f);
+        q++;
+    }
+}
+
+static uint64_t *take_base(vf_rd *r, size_t *np, unsigned *shp);
+
 /* decode the array part of a case; returns malloc'd bit patterns */
 static uint64_t *take_doubles(vf_rd *r, size_t *np, unsigned *shp) {
+    memset(&g_mod, 0, sizeof(g_mod));
+    g_bulk_narrow = 0;
+    g_kseen = 0;
+    g_kseen_bulk = 0;
+    if (vf_left(r) > 0 && (r->p[r->pos] & 7) == 7) {
+        unsigned s = vf_u8(r);
+        unsigned m1 = vf_u8(r);
+        g_mod.on = 1;
+        g_mod.k = KTAB[(s >> 3) & 15];
+        g_mod.but1 = (int)(s >> 7);
+        g_mod.win = m1 & 3;
+        g_mod.odd = (m1 >> 2) & 3;
+        g_mod.salt = m1 >> 4;
+    }
+    uint64_t *v = take_base(r, np, shp);
+    if (g_mod.on) {
+        apply_narrow(v, *np, &g_mod);
+    }
+    return v;
+}
+
+static uint64_t *take_base(vf_rd *r, size_t *np, unsigned *shp) {
     static const unsigned shmap[8] = {SH_EXPLICIT, SH_BINADE,   SH_LE255,
                                       SH_GE256,    SH_SPECIALS, SH_EXPLICIT,
                                       SH_MIX,      SH_EXPLICIT};
@@ -349,8 +560,11 @@ static uint64_t *take_doubles(vf_rd *r, size_t *np, unsigned *shp) {
     size_t n;
     if (L < 232) {
         n = 1 + L % 64u;
+        g_bulk_narrow = (L >> 6) & 1;
     } else {
-        n = 65 + vf_u16(r) % (max_n() - 64);
+        unsigned w = vf_u16(r);
+        n = 65 + w % (max_n() - 64);
+        g_bulk_narrow = (int)((w / (max_n() - 64)) & 1);
     }
     uint64_t seed = ((uint64_t)vf_u32(r) << 1) | 1; /* never 0 */
     seed = vf_mix(seed, 0xC07);
@@ -589,6 +803,7 @@ static int check_array(ctx *c, const uint64_t *bits, size_t n, unsigned prec,
     unsigned emin = 2047, emax = 0;
     int anyCarry = 0, anyCarryInf = 0, anyTie = 0;
     int nNan = 0, nInf = 0, nZero = 0, nSub = 0;
+    unsigned sb1 = 0, sb2 = 0; /* widest and second widest significand */
     long double pubBound = 0;
     int m = 52;
     if (eff != VARINT_FLOAT_PRECISION_FULL) {
@@ -620,6 +835,15 @@ static int check_array(ctx *c, const uint64_t *bits, size_t n, unsigned prec,
             continue;
         }
         normals++;
+        {
+            unsigned sb = sigbits(u);
+            if (sb > sb1) {
+                sb2 = sb1;
+                sb1 = sb;
+            } else if (sb > sb2) {
+                sb2 = sb;
+            }
+        }
         unsigned e = expf_of(u);
         if (e < emin) {
             emin = e;
@@ -695,6 +919,51 @@ static int check_array(ctx *c, const uint64_t *bits, size_t n, unsigned prec,
         }
         vf_class(n == 1 ? "len.1" : n <= 8 ? "len.2-8" : n <= 64 ? "len.9-64"
                                                                  : "len.65+");
+        /* narrow-format arrays, judged on the decoded values: every normal
+         * element fits a k-bit significand and one of them uses all k bits;
+         * or all but one do */
+        if (normals >= 2 && sb1 <= 52) {
+            const char *pn = isauto ? "auto" : PN[prec];
+            if (in_ktab(sb1)) {
+                snprintf(cls, sizeof(cls), "narrow.all.k%u", sb1);
+                vf_class(cls);
+            } else {
+                vf_class("narrow.all.other");
+            }
+            snprintf(cls, sizeof(cls), "narrow.all.%s", pn);
+            vf_class(cls);
+            snprintf(cls, sizeof(cls), "narrow.all.%s", MN[mode]);
+            vf_class(cls);
+            vf_class(normals < 9 ? "narrow.all.n2-8"
+                     : normals < 65 ? "narrow.all.n9-64"
+                                    : "narrow.all.n65+");
+        }
+        if (normals >= 3 && sb2 < sb1 && sb2 <= 52) {
+            if (in_ktab(sb2)) {
+                snprintf(cls, sizeof(cls), "narrow.allbut1.k%u", sb2);
+                vf_class(cls);
+            } else {
+                vf_class("narrow.allbut1.other");
+            }
+            snprintf(cls, sizeof(cls), "narrow.allbut1.%s",
+                     isauto ? "auto" : PN[prec]);
+            vf_class(cls);
+            vf_class(normals < 9 ? "narrow.allbut1.n3-8"
+                     : normals < 65 ? "narrow.allbut1.n9-64"
+                                    : "narrow.allbut1.n65+");
+        }
+        if (isauto && normals >= 1 && sb1 >= 3 && sb1 <= 52) {
+            /* the request against the weight of the last significand bit
+             * (dropping it costs between 2^-k and 2^-(k-1) relative) */
+            double lo = ldexp(1.0, -(int)sb1), hi = ldexp(1.0, 1 - (int)sb1);
+            vf_class(req < lo    ? "auto.narrow.req_lt_2^-k"
+                     : req < hi ? "auto.narrow.req_in_2^-k..2^-(k-1)"
+                                 : "auto.narrow.req_ge_2^-(k-1)");
+            if (normals >= 2) {
+                vf_class(req < lo ? "auto.narrow.multi.req_lt_2^-k"
+                                  : "auto.narrow.multi.req_ge_2^-k");
+            }
+        }
     }
 
     /* ---- per-element verdict.  An encoding made by EncodeAuto is first held
@@ -809,27 +1078,62 @@ void vf_run(vf_rd *r, vf_report *rep) {
     int isauto = ((sel >> 4) & 7) >= 5;
     uint8_t fill = fills[sel >> 7];
     double req = 0;
-    int near = -1;
+    reqspec rq;
     if (isauto) {
-        req = take_req(r, &near);
+        take_req(r, &rq);
         prec = 0;
-        if (near >= 0) {
-            vf_class("auto.req.near_threshold");
-        } else {
-            vf_class("auto.req.loguniform");
-        }
     }
     size_t n = 0;
     unsigned sh = 0;
     uint64_t *bits = take_doubles(r, &n, &sh);
+    if (isauto) {
+        unsigned karr = 0;
+        for (size_t i = 0; i < n; i++) {
+            if (!is_special_bits(bits[i]) && sigbits(bits[i]) > karr) {
+                karr = sigbits(bits[i]);
+            }
+        }
+        if (karr < 3 || karr > 52) {
+            karr = 0;
+        }
+        resolve_req(&rq, karr);
+        req = rq.q;
+        vf_class(rq.rel         ? "auto.req.array_relative"
+                 : rq.near_idx >= 0 ? "auto.req.near_threshold"
+                                    : "auto.req.loguniform");
+    }
     {
         char cls[48];
         snprintf(cls, sizeof(cls), "shape.%s", SHN[sh]);
         vf_class(cls);
+        if (g_mod.on) {
+            vf_class(g_mod.but1 ? "shape.narrow.allbut1" : "shape.narrow.all");
+            snprintf(cls, sizeof(cls), "shape.narrow.%s", SHN[sh]);
+            vf_class(cls);
+            snprintf(cls, sizeof(cls), "shape.narrow.win.%s", WINN[g_mod.win]);
+            vf_class(cls);
+            snprintf(cls, sizeof(cls), "shape.narrow.odd.%s", ODDN[g_mod.odd]);
+            vf_class(cls);
+        }
+        for (unsigned i = 1; i < 16; i++) {
+            if (g_kseen & (1u << i)) {
+                snprintf(cls, sizeof(cls), "elem.narrow.k%u", KTAB[i]);
+                vf_class(cls);
+            }
+        }
+        if (g_kseen_bulk) {
+            vf_class("elem.narrow.in_bulk");
+        }
     }
     char pm[96];
     describe_pm(pm, sizeof(pm), prec, mode, isauto, req);
-    vf_desc(rep, "%s fill=0x%02x shape=%s n=%zu [", pm, fill, SHN[sh], n);
+    vf_desc(rep, "%s fill=0x%02x shape=%s", pm, fill, SHN[sh]);
+    if (g_mod.on) {
+        vf_desc(rep, "+narrow(k=%u,%s,exp=%s,lsb=%s)", g_mod.k,
+                g_mod.but1 ? "all-but-one" : "all", WINN[g_mod.win],
+                ODDN[g_mod.odd]);
+    }
+    vf_desc(rep, " n=%zu [", n);
     for (size_t i = 0; i < n && i < 6; i++) {
         vf_desc(rep, "%s%.17g(0x%016llx)", i ? ", " : "", bits2d(bits[i]),
                 (unsigned long long)bits[i]);
@@ -963,6 +1267,60 @@ void vf_sweep(vf_report *rep) {
             for (unsigned mode = 0; mode < 3 && !rep->violated; mode++) {
                 check_array(&c, all, nall, 0, mode, 1, reqs[q], 0x5A);
                 evals++;
+            }
+        }
+    }
+    /* (d) narrow-format data: 8 values inside the binary16 range that are
+     * exactly representable with a k-bit significand (some using the last
+     * bit, some not), alone per element, together, and with one full double
+     * among them; every precision x mode, and automatic selection with
+     * requests on both sides of 2^-k and 2^-(k-1) */
+    for (unsigned ki = 1; ki < 16 && !rep->violated; ki++) {
+        static const unsigned ex[8] = {1023, 1022, 1024, 1009,
+                                       1038, 1030, 1015, 1023};
+        static const uint64_t pat[8] = {
+            0,
+            FRAC_MASK,
+            0x5555555555555ULL,
+            0xAAAAAAAAAAAAAULL,
+            0x3243F6A8885A3ULL,
+            0xB7E151628AED2ULL,
+            0x8000000000000ULL,
+            0x6A09E667F3BCCULL};
+        unsigned k = KTAB[ki];
+        uint64_t arr[2][8];
+        for (unsigned i = 0; i < 8; i++) {
+            arr[0][i] = mk(i & 1, ex[i], narrow(pat[i], k, i != 0 && i != 6));
+            arr[1][i] = arr[0][i];
+        }
+        arr[1][4] = mk(0, ex[4], pat[4] | 1);
+        double reqs[9] = {ldexp(1.0, -(int)k),
+                          nextafter(ldexp(1.0, -(int)k), 0.0),
+                          nextafter(ldexp(1.0, -(int)k), 1.0),
+                          ldexp(1.0, 1 - (int)k),
+                          nextafter(ldexp(1.0, 1 - (int)k), 0.0),
+                          ldexp(1.0, -(int)k - 1),
+                          ldexp(1.5, -(int)k - 1),
+                          1e-9,
+                          0x1p-60};
+        for (unsigned w = 0; w < 2 && !rep->violated; w++) {
+            for (unsigned mode = 0; mode < 3 && !rep->violated; mode++) {
+                for (unsigned prec = 0; prec < 4 && !rep->violated; prec++) {
+                    check_array(&c, arr[w], 8, prec, mode, 0, 0, 0xA5);
+                    evals++;
+                }
+                for (unsigned q = 0; q < 9 && !rep->violated; q++) {
+                    check_array(&c, arr[w], 8, 0, mode, 1, clamp_req(reqs[q]),
+                                0x5A);
+                    evals++;
+                    for (unsigned i = 0; i < 8 && w == 0 && mode == 0 &&
+                                         !rep->violated;
+                         i++) {
+                        check_array(&c, &arr[0][i], 1, 0, mode, 1,
+                                    clamp_req(reqs[q]), 0x00);
+                        evals++;
+                    }
+                }
             }
         }
     }
